@@ -454,3 +454,21 @@ impl<B: AsRef<[usize]> + BitLength, C: AsRef<[BlockCounters]>, I: AsRef<[usize]>
     for Select9<Rank9<B, C>, I>
 {
 }
+
+// Accessors for verification harnesses (compiled only with --cfg sux_verif)
+#[cfg(sux_verif)]
+impl<R, I: AsRef<[usize]>> Select9<R, I> {
+    /// Returns (inventory, subinventory, inventory_size, subinventory_size).
+    pub fn verif_parts(&self) -> (&[usize], &[usize], usize, usize) {
+        (
+            self.inventory.as_ref(),
+            self.subinventory.as_ref(),
+            self.inventory_size,
+            self.subinventory_size,
+        )
+    }
+    /// Returns the underlying ranking structure.
+    pub fn verif_inner(&self) -> &R {
+        &self.rank9
+    }
+}
